@@ -24,6 +24,18 @@ FIXED_EN = ['3', '12', '2.5', '1,000', 'three', 'twenty', 'hundred', 'first', 'h
 
 # closed pool of English entity expressions, one or two per entity family, including the forms in which one entity is
 # written inside another (a dotted quad inside an IPv6 address, a number inside an amount)
+# closed pool of English date/time expressions, one per kind (part of day, month-day, clock time, relative day, period, year,
+# duration, weekday): appended to / put in front of every spec input in part 'spec-input-extended'
+EN_EXTENSIONS = ['this morning', 'tonight', 'may 6', '3pm', 'tomorrow', 'next week', '2016', '3 days', 'friday', '30', '$5']
+# the merged date-time extractor's "number ending" rule (<time> <meeting word> <to> N + end / punctuation gives N as a new
+# time): per culture whose resource defines the rule - (clock times, meeting words named by the rule, linking word, N, tails)
+NUMBER_ENDING = {
+    'en-us': (['3pm', '15:00'], ['meeting', 'appointment', 'conference', 'call', 'skype call'], ' to ', ['7', 'eight', '11'],
+              ['this morning', 'tonight', 'may 6', 'tomorrow', '3 days', '2016']),
+    'de-de': (['15:00', '3 uhr'], ['meeting', 'termin', 'call'], ' to ', ['7', 'acht'], ['heute abend', 'morgen', '6. mai']),
+    'nl-nl': (['15:00', '3 uur'], ['vergadering', 'afspraak'], ' naar ', ['7', 'acht'], ['vanavond', 'morgen', '6 mei']),
+    'it-it': (['15:00', 'le 3'], ['riunione', 'appuntamento', 'chiamata'], ' alle ', ['7', 'otto'], ['stasera', 'domani', '6 maggio']),
+}
 FIXED_EN_ENTITIES = ['2.5 dollars', '50 yen', '30', 'three', '3 kg', '20%', 'nov 7', '3pm', '2012', 'friday', '3 days', '1.2.3.4',
                      '::ffff:192.168.1.1', 'a@b.com', 'x.com', 'yes']
 
@@ -161,8 +173,8 @@ def calls(cul, q, ref):
 def build(ch):
     """-> (source label, culture, query, reference)"""
     S.pop('only', None)
-    part = ch.pick('part', ('specs', 'tokens-k2', 'tokens-k3', 'entity-pairs', 'entity-triples', 'modifier-stacks', 'unit-chains',
-                            'two-threads', 'shared-state-writes', 'normaliser'))
+    part = ch.pick('part', ('specs', 'spec-input-extended', 'tokens-k2', 'tokens-k3', 'entity-pairs', 'entity-triples', 'modifier-stacks',
+                            'unit-chains', 'number-ending', 'two-threads', 'shared-state-writes', 'normaliser'))
     if part in ('two-threads', 'shared-state-writes'):
         return part, None, None, None
     if part == 'normaliser':
@@ -178,6 +190,36 @@ def build(ch):
         if CFG['tier'] == 'quick' and (sum(map(ord, q)) + CFG['seed']) % 3 != 0:
             S['only'] = own
         return part, cul, q, ref
+    if part == 'number-ending':
+        if cul not in NUMBER_ENDING:
+            ch.prune()
+        times, words, link, ns, tails = NUMBER_ENDING[cul]
+        t = ch.pick('time', times)
+        w = ch.pick('meeting_word', words)
+        ch.shard()
+        n = ch.pick('new_time', ns)
+        tail = ch.pick('tail', ['', '.', ',', '!', '?', '.,'] + [', ' + x for x in tails] + [' ' + x for x in tails])
+        lead = ch.pick('lead', ('', 'ok '))
+        S['only'] = 'DateTime'
+        return part, cul, '%s%s %s%s%s%s' % (lead, t, w, link, n, tail), registry.REF
+    if part == 'spec-input-extended':
+        # every spec input (a sentence that is known to exercise some rule of its recogniser) continued by / preceded by one
+        # entity expression of a closed per-culture pool: the rule's entity then has a neighbour it may wrongly share text with
+        items = S['inputs'].get(cul, [])
+        exts = EN_EXTENSIONS if cul == 'en-us' else list(dict.fromkeys((S['dt_entities'].get(cul) or [])[:4] + S['entities'][cul][:4]))
+        if CFG['tier'] == 'quick' and cul != 'en-us':
+            exts = exts[:2] + exts[4:5]              # quick: two date-time expressions and one other entity (no seed rotation)
+        if not items or not exts:
+            ch.prune()
+        ci = ch.pick_index('chunk', (len(items) + 24) // 25)
+        ch.shard()
+        q, (ref, own) = ch.pick('input', items[ci * 25:(ci + 1) * 25])
+        ext = ch.pick('extension', exts)
+        shape = ch.pick('shape', ('input, ext', 'input ext', 'ext input'))
+        core = q.rstrip(' .!?。？！')
+        q2 = {'input, ext': core + ', ' + ext, 'input ext': core + ' ' + ext, 'ext input': ext + ' ' + q}[shape]
+        S['only'] = own
+        return part, cul, q2, ref
     if part in ('tokens-k2', 'tokens-k3'):
         pool = S['pool'][cul] if part == 'tokens-k2' else (S['pool'][cul][:CFG['k3_pool'] - 4] + S['specials'][:2] + S['specials'][6:8])
         a = ch.pick('t1', pool)
